@@ -2,6 +2,7 @@
 #include "hcommon.h"
 #include "esl_random.h"
 #include "esl_rand64.h"
+extern int64_t esl_rand64_int64(ESL_RAND64 *rng);   /* defined in esl_rand64.c but missing from esl_rand64.h */
 
 static ESL_RANDOMNESS *R; static ESL_RAND64 *R64;
 static void h_case_begin(void) { }
